@@ -80,7 +80,9 @@ pub fn header_faults(orig: &[u8], reduced: bool) -> Vec<(String, HeaderEdit)> {
                 let reps: Vec<String> = if reduced {
                     vec!["0".into(), (val + 1).to_string(), "99999999999".into(), "99999999999999999999999999".into()]
                 } else {
-                    vec!["0".into(), "1".into(), (val + 1).to_string(), val.saturating_sub(1).to_string(), "99999999999".into(), "18446744073709551615".into(), "18446744073709551616".into(), "99999999999999999999999999".into(), "-5".into(), "abc".into(), "".into(), "4294967296".into(), "9223372036854775807".into()]
+                    vec!["0".into(), "1".into(), (val + 1).to_string(), val.saturating_sub(1).to_string(), "99999999999".into(), "18446744073709551615".into(), "18446744073709551616".into(), "99999999999999999999999999".into(), "-5".into(), "abc".into(), "".into(), "4294967296".into(), "9223372036854775807".into(),
+                        // digits that are numeric for Unicode but not ASCII: full-width after ASCII digits, alone, a superscript
+                        format!("{}\u{ff10}", val), "\u{ff14}\u{ff12}".into(), format!("{}\u{b2}", val), format!("{}\u{0663}", val)]
                 };
                 for rep in reps {
                     out.push((format!("num line{} {}->{}", li, &line[s..i], rep), HeaderEdit::Replace(li, format!("{}{}{}", &line[..s], rep, &line[i..]))));
@@ -435,7 +437,7 @@ pub fn child(args: &[String]) -> i32 {
 
 pub fn run(tier: Tier) -> i32 {
     let rep = Report::new("C18", tier, "fault_enumeration");
-    rep.set_rule("fault enumeration on 6 generated voice files (about 2-4 kB: 2/3 streams, GV on/off, single-leaf and 3-leaf trees, quoted/unquoted leaves) and the bundled voice: singles = truncation (every byte offset on generated files; every section/range boundary +-1 and a 64-point lattice on V0), every header number replaced by each of 13 values, every header line deleted/duplicated/emptied, every range inverted, every pair of ranges swapped, tree/question/window tokens renamed or removed (every occurrence on generated files), every number inside window rows (and, on generated files, inside tree text) replaced by each of {0, 4e18, 1e12, a 20-digit number, -1} with the ranges rewritten to match, every text byte of generated files replaced by each of 9 bytes, NUL/0xFF/partial-UTF-8 bytes in every header section, PDF count words overwritten; doubles (thorough; first generated file in quick) = all pairs of reduced header faults on different lines, reduced header fault x truncation (stride 7), reduced header fault x token fault; each case loaded via the real loader + VoiceSet + Condition::load_model in a child process (RLIMIT_AS 3 GiB, 90 s per case); distinct = distinct fault; non-trivial = faulted bytes differ from the base");
+    rep.set_rule("fault enumeration on 6 generated voice files (about 2-4 kB: 2/3 streams, GV on/off, single-leaf and 3-leaf trees, quoted/unquoted leaves) and the bundled voice: singles = truncation (every byte offset on generated files; every section/range boundary +-1 and a 64-point lattice on V0), every header number replaced by each of 17 values (incl. non-ASCII Unicode digits), every header line deleted/duplicated/emptied, every range inverted, every pair of ranges swapped, tree/question/window tokens renamed or removed (every occurrence on generated files), every number inside window rows (and, on generated files, inside tree text) replaced by each of {0, 4e18, 1e12, a 20-digit number, -1} with the ranges rewritten to match, every text byte of generated files replaced by each of 9 bytes, NUL/0xFF/partial-UTF-8 bytes in every header section, PDF count words overwritten; doubles (thorough; first generated file in quick) = all pairs of reduced header faults on different lines, reduced header fault x truncation (stride 7), reduced header fault x token fault; each case loaded via the real loader + VoiceSet + Condition::load_model in a child process (RLIMIT_AS 3 GiB, 90 s per case); distinct = distinct fault; non-trivial = faulted bytes differ from the base");
     rep.assume("at most two simultaneous faults; V0's binary PDF payload is only truncated and overwritten at its count words");
     let b = bases();
     let outcomes: Mutex<BTreeMap<String, (u64, String)>> = Mutex::new(BTreeMap::new());
